@@ -159,6 +159,20 @@ Succ(st, s, U, Hv(_)) ==
     [] st.op = "bassert" -> IF s[st.x] = 1 THEN {s} ELSE {}
     [] st.op = "bselect" -> {Upd(s, st.x, IF s[st.c] = 1 THEN s[st.y] ELSE s[st.z])}
     [] st.op = "nop"     -> {s}
+    \* ---- call of an EXTERNAL function in an intra-procedural analysis: the outputs (one or two) receive arbitrary values
+    [] st.op = "callx"   -> IF Len(st.lhs) = 1 THEN {Upd(s, st.lhs[1], n) : n \in Hv(st.lhs[1])}
+                            ELSE {Upd(Upd(s, st.lhs[1], n), st.lhs[2], m) : n \in Hv(st.lhs[1]), m \in Hv(st.lhs[2])}
+    \* ---- integer conversions (zext / sext / trunc) under crab's mathematical-integer reading: the value is kept when it
+    \* is representable on both sides; boolean -> integer by zext is 0/1; integer -> boolean by trunc is "non-zero is true"
+    \* (flat_boolean_domain.hpp); sext of a boolean and zext of a negative integer have no agreed meaning: no successor
+    \* (no claim).  st.sk / st.dk = "bool" | "int" are the kinds of source and destination, st.sw / st.dw their widths.
+    [] st.op = "cast"    -> LET v == s[st.y]
+                            IN IF st.sk = "bool" /\ st.dk = "int" THEN (IF st.f = "zext" THEN {Upd(s, st.x, v)} ELSE {})
+                               ELSE IF st.sk = "int" /\ st.dk = "bool" THEN (IF st.f = "trunc" THEN {Upd(s, st.x, IF v # 0 THEN 1 ELSE 0)} ELSE {})
+                               ELSE IF st.sk = "bool" THEN {}
+                               ELSE IF st.f = "zext" /\ v < 0 THEN {}
+                               ELSE IF Abs(v) >= Pow2(IF st.sw < st.dw THEN st.sw - 1 ELSE st.dw - 1) THEN {}    \* widths >= 8 only
+                               ELSE Set1(s, st.x, {v}, U)
     \* ---- arrays: an array variable holds a tuple of cells; UNW marks a cell that was never written.
     \* Indices are byte offsets; all accesses of an array use one element size es (word-level assumption);
     \* a misaligned or out-of-range access and a read of an unwritten cell are outside the model (no successor).
